@@ -938,9 +938,16 @@ static int send_frame(const struct websocket *s, uint8_t *payload, size_t length
 	uint8_t rsv = 0x00;
 	if (s->extension_compression.accepted && (type < WS_CLOSE_FRAME)) {
 		payload_comp = malloc(length * 2);
-		length_comp = websocket_compress(s, payload_comp, payload, length);
-		rsv = 0x40;
-		payload_ptr = payload_comp;
+		int compressed = -1;
+		if (payload_comp != NULL) {
+			compressed = websocket_compress(s, payload_comp, payload, length);
+		}
+		if (compressed >= 0) {
+			length_comp = (size_t)compressed;
+			rsv = 0x40;
+			payload_ptr = payload_comp;
+		}
+		/* Otherwise the message is sent uncompressed, which RFC 7692 permits for every message. */
 	}
 
 	ws_header[0] = (uint8_t)(type | WS_HEADER_FIN | rsv);
